@@ -292,6 +292,8 @@ pub struct RtrAnswer {
     pub session: u16,
     pub serial: u32,
     pub items: Vec<RtrItem>,
+    /// (refresh, retry, expire) of a version 1 End of Data PDU
+    pub timing: Option<(u32, u32, u32)>,
 }
 
 fn read_exact(sock: &mut TcpStream, n: usize) -> Result<Vec<u8>, String> {
@@ -365,6 +367,10 @@ pub fn rtr_query_on(sock: &mut TcpStream, state: Option<(u16, u32)>, timeout: Du
             7 => {
                 ans.session = sess;
                 ans.serial = u32::from_be_bytes([body[0], body[1], body[2], body[3]]);
+                if body.len() >= 16 {
+                    let w = |i: usize| u32::from_be_bytes([body[i], body[i + 1], body[i + 2], body[i + 3]]);
+                    ans.timing = Some((w(4), w(8), w(12)));
+                }
                 return ans
             }
             8 => { ans.kind = "cache-reset".into(); return ans }
